@@ -41,19 +41,34 @@ LEVEL_TEXT = (
     "Grid.__init__ guarantees for every grid object, len(points) = len(weights) of each atomic grid (a duck-typed object with "
     "one point and several weights is broadcast by NumPy, not rejected: modelled, AtGrid.segPoints; molgrid_shape needs no "
     "assumption). AtomGrid and BeckeWeights are given components (C05, C06). "
+    "Round 3: MolGrid.interpolate and its inner interpolate_low are translated statement by statement and proved equal to the hand "
+    "model for all inputs (gen_interpolate_eq_model, gen_interpolate_low_eq_model; the defaults deriv=0, deriv_spherical=False, "
+    "only_radial_derivs=False: interpolate_low_defaults); after MolGrid(..., store=True), for values f of the grid's size, atom k "
+    "interpolates (f * aim_weights)[indices[k]:indices[k+1]] on its stored grid and the callable handed back evaluates the atomic "
+    "interpolants in order and adds them — entry by entry the sum over the atoms when the shapes agree (interpolate_sum_over_atoms, "
+    "sumInterp_same_shape); ValueError without stored grids (interpolate_needs_store); AtomGrid.interpolate is a given component (C09). "
+    "_generate_default_rgrid is translated statement by statement and every row (rmin, rmax, npt) of _DEFAULT_POWER_RTRANSFORM_PARAMS is "
+    "carried as the exact decimal of its literal text: the generated function is the table look-up followed by "
+    "PowerRTransform(rmin*angstrom/bohr, rmax*angstrom/bohr).transform_1d_grid(UniformInteger(npt)), ValueError off the table "
+    "(gen_defaultRgrid_eq_model, generate_default_rgrid_spec, defaultRgridParams_npt); for every Z of the table, kernel-decided on the exact "
+    "decimals: 0 < rmin, rmin*npt^2 <= rmax, 34 <= npt, keys H-La and Hf-Pb once each (defaultRgrid_rows_ok), hence over the reals for all "
+    "positive unit constants: 0 < a < b, exponent p = ln(b/a)/ln(npt) >= 2, first point a, last point b, points a(x+1)^p strictly "
+    "increasing, weights p a (x+1)^(p-1) positive (defaultRgrid_clause). The defaults of the three classmethod signatures are generated "
+    "definitions (signature_defaults_pinned, fromPruned_default_sectors), the statements of save are pinned as text (save_site_pinned). "
     "Exploration only (labelled, no theorem): the end-to-end clause — preset grids with the default radial grids integrate "
     "sums of normalised atom-centred Gaussians (exponents 0.3-30, 1-5 atoms >= 1.2 bohr apart) to the total charge within "
     "1 % — is sampled on the implementation, over the (preset, element) combinations for which a preset grid with the default "
     "radial grids exists (the presets that prescribe their own number of radial shells reject the default radial grid: a "
     "rejection, outside the clause; they are sampled with a radial grid of the prescribed size as a labelled extension)."
 )
-TECHNIQUE = ("Lean 4 proof over a hand model (concatenation / slices / decomposition / store independence / fan-out) + AST "
+TECHNIQUE = ("[round 3: interpolate / interpolate_low, _generate_default_rgrid and its parameter table (exact decimals), signature defaults "
+             "generated from the source, gen = model and clause theorems over them] Lean 4 proof over a hand model (concatenation / slices / decomposition / store independence / fan-out) + AST "
              "translator for the per-atom selection code and (statement by statement) for __init__, get_atomic_grid, "
              "__getitem__, with gen = model theorems + differential correspondence (generated and hand model vs "
              "implementation on small arrays; constructor-built vs hand-built grids bit for bit) + sampled end-to-end "
              "integration (exploration)")
 GEN = ["molgrid"]
-LEAN_MODULES = ["GridVerif.Props.C07"]
+LEAN_MODULES = ["GridVerif.Props.C07", "GridVerif.Props.C07.Interp", "GridVerif.Props.C07.DefaultRgrid", "GridVerif.Props.C07.Defaults"]
 THEOREMS = [
     "GridVerif.C07.molgrid_shape",
     "GridVerif.C07.molgrid_slices",
@@ -88,6 +103,21 @@ THEOREMS = [
     "GridVerif.C07.gen_init_overwrites_zeros",
     "GridVerif.C07.gen_getAtomicGrid_eq_model",
     "GridVerif.C07.gen_getItem_eq_model",
+    # round 3: interpolate / interpolate_low, the default radial grids (function and table), signature defaults, save
+    "GridVerif.C07.gen_interpolate_low_eq_model",
+    "GridVerif.C07.interpolate_low_defaults",
+    "GridVerif.C07.gen_interpolate_eq_model",
+    "GridVerif.C07.interpolate_needs_store",
+    "GridVerif.C07.interpolate_sum_over_atoms",
+    "GridVerif.C07.sumInterp_same_shape",
+    "GridVerif.C07.defaultRgridParams_npt",
+    "GridVerif.C07.gen_defaultRgrid_eq_model",
+    "GridVerif.C07.defaultRgrid_rows_ok",
+    "GridVerif.C07.defaultRgrid_clause",
+    "GridVerif.C07.generate_default_rgrid_spec",
+    "GridVerif.C07.signature_defaults_pinned",
+    "GridVerif.C07.fromPruned_default_sectors",
+    "GridVerif.C07.save_site_pinned",
 ]
 RULE = (
     "correspondence (a) model vs implementation on random small per-atom arrays (1-4 atoms, 0-4 points each, "
@@ -127,7 +157,31 @@ RULE = (
     "histories (the same constructors with overlapping arguments in different orders, reversed molecules, shared rgrid / "
     "coordinate objects): every call vs the hand-built grid at that moment, vs the first call with the same arguments, and vs "
     "the same construction alone in a fresh interpreter (hash). oracle_at turns a correspondence disagreement into a property "
-    "evaluation at that input"
+    "evaluation at that input. "
+    "ROUND 3: correspondence — MolGrid.interpolate(f)(points[, deriv[, deriv_spherical[, only_radial_derivs]]]) on duck-typed atoms with a "
+    "synthetic interpolate (the same function in the driver): generated text and hand model vs implementation incl. wrong-size / one-element "
+    "f and aim (NumPy broadcasting of `*`), one-value atoms answering (1,) / (3,) arrays (broadcasting and rejection of `+=`), deriv > 3, "
+    "store=False, 0-3 optional arguments (generated defaults); the generated signature defaults vs inspect.signature and vs calls leaving the "
+    "arguments out (hand-built with the driver's values); the generated _generate_default_rgrid on recording components and every generated "
+    "table row (Float value and exact decimal) vs the implementation for Z = 0..99; small-array cases with weights / aim weights / values "
+    "scaled by 1e-300 .. 1e12 and points translated by 2^20. Oracle — class 10: every ordered pair of "
+    "__getitem__, get_atomic_grid, atgrids, indices, aim_weights, atweights, get_localgrid, points, weights, integrate, atcoords, size on one "
+    "new object (a, b, a) for both values of store against the same call on a new object and against independent data; interleaved call "
+    "sequences with alternating indices / radii / integrands; query - weights setter - query; class 9: the grid handed out by "
+    "get_atomic_grid / __getitem__ / get_localgrid re-weighted and moved by the caller through its setters (and in place where it is the "
+    "caller's own stored AtomGrid or a copy) — molecular arrays and integrals unchanged, second answer = first answer; constructor arguments "
+    "edited in place afterwards; the alias table of the pinned tree is recorded (coverage.handed_out_alias_table); class 12: every element "
+    "whose default-radial-grid row is extreme (min / max rmin, rmax, npt, rmax/rmin, exponent; all rmin within 100x of the smallest: Se, Br) "
+    "or at an edge of the table, as one-atom molecules and pairs, all three constructors with rgrid=None vs grids built by hand and vs an "
+    "independent closed-form radial grid, aim weights of a one-atom molecule = 1, 1 % Gaussian integral; radial grids with a zero radius, a "
+    "single shell, radii 1e-300 .. 1e12, an atom on a grid point of another, centres at the origin / 2^10 / 2^20 away; class 8: aim weights "
+    "and integrands over 1e-300 .. 1e150 (results relative to their scale), constructors under exactly representable translations 2^10 .. 2^20 "
+    "(hand-built equality bit for bit, atomic weights and index table unchanged, points / aim weights / integrals within rounding of the "
+    "shift); class 7: both sides of every guard (atcoords.ndim 0 / 1 / 2 / 3, natoms vs centres -1 / 0 / +1, aim array size -1 / 0 / +1, "
+    "get_atomic_grid -1 / 0 / n-1 / n, integrate size -1 / 0 / +1, default radial grid at Z = 0, 1, 57, 58, 71, 72, 82, 83), end-to-end samples "
+    "at exactly 1.2 bohr and at exponents within 1 % of 0.3 and 30; class 11: fresh-interpreter first calls with store=True; class 13 does "
+    "not apply (no solver). interpolate on real AtomGrids: mg.interpolate(f)(points, ...) = sum over atoms of "
+    "AtomGrid.interpolate((aim*f)[segment])(points, ...) for several derivative options and amplitudes 1e-12 .. 1e12"
 )
 TRUSTED_BASE = [
     "Lean 4.33 kernel; axioms propext, Classical.choice, Quot.sound only (audited per theorem)",
@@ -137,6 +191,11 @@ TRUSTED_BASE = [
     "__init__ / get_atomic_grid / __getitem__ statement by statement over the primitives npZeros, npSum, pySetItem, "
     "pySetSlice, pyForEnum, pyGet, pySlice, mulBroadcast, mkLocalGrid of Model/MolGrid.lean, which are hand-written)",
     "NumPy slice assignment / slicing / broadcasting, Python list/dict indexing, zip/enumerate as modelled",
+    "round 3 primitives of Model/MolGrid.lean (hand-written): npMul1 (1-D `*` with broadcasting), NdArr / npIAdd (`+=` with NumPy's in-place "
+    "broadcasting rule), pyForRange, pyForEach, pySliceFrom, subInterpolate (an AtomGrid has .interpolate, a LocalGrid has not), Dec.val "
+    "(a decimal literal as mantissa / 10^scale; at Float within 2 ulp of Python's reading), pyDictIn / pyDictGet; scipy.constants.angstrom and "
+    "value('atomic unit of length') enter the generated _generate_default_rgrid as parameters (positive reals in the theorem, SciPy's values "
+    "in the correspondence)",
 ]
 ASSUMPTIONS = [
     "AtomGrid (from_preset, from_pruned, __init__) and BeckeWeights are given components (C05, C06): abstract "
@@ -146,6 +205,9 @@ ASSUMPTIONS = [
     "weights assume it returns one value per grid point (the constructor enforces this for arrays only)",
     "atcoords.ndim != 2 is rejected before the modelled part (checked on a malformed stream)",
     "the 1 % end-to-end clause is exploration: sampled, not proved",
+    "AtomGrid.interpolate, UniformInteger, PowerRTransform.transform_1d_grid are given components (C09, C01, C03/C04): abstract functions in "
+    "the generated interpolate / _generate_default_rgrid; defaultRgrid_clause states the closed form of the power transform "
+    "(points a (x+1)^p, p = ln(b/a)/ln(npt)) as C03 proves it for PowerRTransform",
 ]
 
 KEY_GETITEM = "molgrid.MolGrid.__getitem__:store"
@@ -200,6 +262,9 @@ def _small_case(ctx: Ctx, bg, forced=None):
     n = rng.choice([0, 1, 1, 1, 2, 2, 2, 2, 3, 3, 3, 4, 4]) if forced is None else len(forced[0])
     grids, parts = [], []
     duck = False
+    mag = None
+    if forced is None and rng.random() < 0.15:
+        mag = (rng.choice([1e-300, 1e-50, 1e-12, 1e12]), rng.choice([0.0, 2.0 ** 20]))
     for ia in range(n):
         k = rng.choice([0, 1, 1, 2, 2, 3, 4]) if forced is None else forced[0][ia]
         kp = k
@@ -211,6 +276,10 @@ def _small_case(ctx: Ctx, bg, forced=None):
         pts = np.array([[rng.uniform(-3, 3) for _ in range(3)] for _ in range(kp)], dtype=float).reshape(kp, 3)
         w = np.array([rng.choice([rng.uniform(0.01, 2.0), rng.uniform(-1, 1)]) for _ in range(k)], dtype=float)
         c = np.array([rng.uniform(-2, 2) for _ in range(3)])
+        if mag is not None:
+            # round 3, class 8: weights over 24 orders of magnitude and far below machine epsilon, centres 2^20 away
+            w = w * mag[0]
+            pts, c = pts + mag[1], c + mag[1]
         if kp == k:
             grids.append(bg.LocalGrid(pts, w, c))
         else:
@@ -224,6 +293,10 @@ def _small_case(ctx: Ctx, bg, forced=None):
         kind = forced[1]
     if kind == "arr":
         a = np.array([rng.uniform(0, 1) for _ in range(size)])
+        if mag is not None:
+            a = a * rng.choice([1.0, 1e-300, 1e12])
+            if size:
+                a[rng.randrange(size)] = rng.choice([0.0, 5e-324, 1e-300])
         aim, aimtok = a, "arr " + fvec(a)
     elif kind in ("arrk", "cbarr"):
         # the same numbers in another dtype / container / memory layout: the model gets their float64 values
@@ -286,7 +359,10 @@ def _small_case(ctx: Ctx, bg, forced=None):
         aimspec = ({"cbZ": "cbZ", "cbshort": "callable-short", "other": "other"}[base_kind], None)
     body = f"{aimtok} {vec(atnums)} {n} " + " ".join(parts)
     atk = rng.choice(["int64", "int64", "int32", "list", "float64"])
-    return dict(n=n, grids=grids, atnums=atnums, aim=aim, kind=kind, size=size, body=body, duck=duck, aimvals=aimvals, atk=atk, aimspec=aimspec)
+    if mag is not None:
+        kind = kind + ":mag"
+    return dict(n=n, grids=grids, atnums=atnums, aim=aim, kind=kind, size=size, body=body, duck=duck, aimvals=aimvals, atk=atk, aimspec=aimspec,
+                mag=mag)
 
 
 def _impl_init(mg, case, store):
@@ -334,6 +410,8 @@ def _corr_small(ctx: Ctx, mg, bg):
                         lines.append(f"C07.{pre}get {which} {idx} {spec}")
                         meta.append((ci, store, pre + which, idx))
             f = np.array([ctx.rng.uniform(-2, 2) for _ in range(case["size"])])
+            if case.get("mag") is not None:
+                f = f * ctx.rng.choice([1.0, 1e-12, 1e12, 1e150])
             lines.append(f"C07.integrate {fvec(f)} {spec}")
             meta.append((ci, store, "integrate", f))
             fb = np.ones(case["size"] + 1)
@@ -784,6 +862,8 @@ def corr(ctx: Ctx):
     _corr_small(ctx, mg, bg)
     _corr_fanout(ctx, mg, ag, bk, od)
     _corr_save(ctx, mg, ag, od)
+    from . import c07_ext
+    c07_ext.corr(ctx, mg, ag, bk, od)
 
 
 # ------------------------------------------------------------------------------------------
@@ -994,7 +1074,7 @@ def _default_rgrid_reference(z, table):
 def _oracle_default_rgrid(ctx: Ctx, budget, mg):
     utils = importlib.import_module("grid.utils")
     table = utils._DEFAULT_POWER_RTRANSFORM_PARAMS
-    zs = list(table) if budget == "large" or ctx.thorough else [1, 6, 8, 17, 35, 57, 72, 82]
+    zs = list(table)    # round 3: every element on every run (68 small grids)
     for z in zs:
         g = mg._generate_default_rgrid(z)
         pts, wts = _default_rgrid_reference(z, table)
@@ -1045,7 +1125,16 @@ def _oracle_end_to_end(ctx: Ctx, budget, mg, ag):
         n = rng.choice([1, 2, 3, 4, 5])
         atnums = [rng.choice(elems) for _ in range(n)]
         coords = _mol(ctx, n)
-        alphas = [rng.choice([0.3, 30.0, 10 ** rng.uniform(math.log10(0.3), math.log10(30.0))]) for _ in range(n)]
+        if n >= 2 and rng.random() < 0.3:
+            # round 3, class 7: the closest pair exactly at / within 1 % of the 1.2 bohr of the quantifier
+            ax = rng.randrange(3)
+            coords[1] = coords[0]
+            coords[1, ax] += rng.choice([1.2, 1.2 * 1.01])
+            for k in range(2, n):
+                while min(np.linalg.norm(coords[k] - coords[j]) for j in range(k)) < 1.2:
+                    coords[k] = np.array([rng.uniform(-2.5, 2.5) for _ in range(3)])
+        # ... and exponents at / within 1 % of the ends 0.3 and 30 of the quantifier
+        alphas = [rng.choice([0.3, 30.0, 0.3 * 1.01, 30.0 / 1.01, 10 ** rng.uniform(math.log10(0.3), math.log10(30.0))]) for _ in range(n)]
         charges = [rng.choice([1.0, rng.uniform(0.2, 3.0)]) for _ in range(n)]
         rotate = rng.choice([0, 37, rng.randrange(10 ** 6)])
         if extension:
@@ -1434,7 +1523,7 @@ assert np.array_equal(R0.points, snap_r[0]) and np.array_equal(R0.weights, snap_
 # the same constructions, each alone in a fresh interpreter
 procs = []
 for sk in P['fresh']:
-    code = P['prelude'] + 'P = ' + repr(dict(P, steps=[list(sk) + [False]], fresh=[], prelude='')) + P['body'] + "\nprint('DIGEST', DIGESTS[repr(tuple(P['steps'][0][:3]))])\n"
+    code = P['prelude'] + 'P = ' + repr(dict(P, steps=[list(sk) + [bool(len(procs) % 2 == 0)]], fresh=[], prelude='')) + P['body'] + "\nprint('DIGEST', DIGESTS[repr(tuple(P['steps'][0][:3]))])\n"
     env = dict(os.environ, PYTHONPATH=os.pathsep.join(p for p in sys.path if p))
     procs.append((sk, subprocess.Popen([sys.executable, '-c', code], stdout=subprocess.PIPE, stderr=subprocess.PIPE, text=True, env=env, cwd='/')))
 for sk, pr in procs:
@@ -1712,6 +1801,10 @@ def oracle_at(ctx: Ctx, failure):
     w = failure.witness or {}
     if not isinstance(w, dict):
         return
+    if w.get("op") == "interpolate":
+        from . import c07_ext
+        c07_ext.oracle_at_interp(ctx, w)
+        return
     if "grids" in w and "aimspec" in w:
         # a small-array case of the correspondence: admissible if every atomic grid is a Grid (as many points as weights),
         # there is at least one atom, and the aim weights have the grid's size
@@ -1760,4 +1853,6 @@ def oracle(ctx: Ctx, budget: str):
     _oracle_aim_kinds(ctx, budget)
     _oracle_presets(ctx, budget)
     _oracle_history(ctx, budget)
+    from . import c07_ext
+    c07_ext.oracle(ctx, budget)
     _oracle_end_to_end(ctx, budget, mg, ag)
